@@ -127,7 +127,9 @@ class World:
 
         self.Writer, self.PayloadWriter, self.Reader, self.Loop = _Writer, _PayloadWriter, _Reader, _Loop
         self.Req, self.Response, self.async_timeout = _Req, _Response, _async_timeout
-        self.peer_code = u.int("peer_close_code", 1000, 4999)
+        # the code of the peer's CLOSE frame as the reader reports it: 0 for an empty payload, else a wire-valid code
+        self.peer_code = u.int("peer_close_code", 0, 4999)
+        u.assume(Or(self.peer_code == 0, self.peer_code >= 1000))
         self.msgs = 0
 
     def next_message(self):
@@ -308,7 +310,16 @@ def client_close(u: U):
     w.others_may_close = True
     f = u.load(CLI, "ClientWebSocketResponse.close", globals={"async_timeout": w.async_timeout})
     fn_id = "client_ws:ClientWebSocketResponse.close"
-    u.loop(fn_id, 0, inv=lambda L: [("timeout_spans_the_whole_wait", w.depth == 1)])
+    def entering_the_wait(L):
+        # the loop that waits for the peer's CLOSE frame is about to run
+        if closing and ("other.closed",) not in w.log:
+            u.check("C13.client.close.no_second_wait_after_peer_close", False,
+                    "when the peer's CLOSE frame was already received (receive() has latched _closing and the peer's code - 0 "
+                    "for a CLOSE without payload), close() answers it and returns: it does not wait the whole close timeout "
+                    "for a second CLOSE that will never come (and then report 1006)",
+                    known=[("F13d", w.peer_code == 0)], witness={"peer_close_code": w.peer_code})
+
+    u.loop(fn_id, 0, inv=lambda L: [("timeout_spans_the_whole_wait", w.depth == 1)], at_head=entering_the_wait)
     out = u.call(f, ws)
     _close_common(u, w, ws, out, entry_closed, waiting, "client")
     if entry_closed:
@@ -319,6 +330,13 @@ def client_close(u: U):
         u.check("C13.client.close.wakes_blocked_receive", bool(feeds) and feeds[0][1] is w.M.WS_CLOSING_MESSAGE
                 and w.log.index(feeds[0]) < _names(w).index("close_frame") if "close_frame" in _names(w) else bool(feeds),
                 "a receive() blocked in its read is woken with the CLOSING message")
+    if closing and not entry_closed and ("other.closed",) not in w.log:
+        reads = [e for e in u.events if e[0] == "suspend" and e[3] == "reader.read"]
+        u.check("C13.client.close.no_second_wait_after_peer_close", not reads,
+                "when the peer's CLOSE frame was already received (receive() has latched _closing and the peer's code - 0 "
+                "for a CLOSE without payload), close() answers it and returns: it does not wait the whole close timeout "
+                "for a second CLOSE that will never come (and then report 1006)",
+                known=[("F13d", w.peer_code == 0)], witness={"peer_close_code": w.peer_code})
     if out.ok and out.value is True and fs["_exception"] is not None:
         u.check("C13.client.close.abnormal_is_1006", fs["_close_code"] == ABNORMAL, "an error while closing reports 1006")
     if not out.ok and isinstance(out.exc, asyncio.CancelledError) and "close_frame" in _names(w):
